@@ -97,8 +97,8 @@ static long cb(void * st, float * * data)
 static void state(SRC_STATE * s)
 {
   soxr_t p = (soxr_t)s;
-  if (p) out("S err=%d io=%016llx fl=%d init=%d ch=%u fn=%d", !!p->error, (unsigned long long)dbits(p->io_ratio), !!p->flushing,
-      !!p->resamplers, p->num_channels, !!p->input_fn);
+  if (p) out("S err=%d io=%016llx fl=%d init=%d ch=%u fn=%d mi=%zu", !!p->error, (unsigned long long)dbits(p->io_ratio), !!p->flushing,
+      !!p->resamplers, p->num_channels, !!p->input_fn, p->max_ilen);
 }
 
 static float * signal_buf(size_t n)
